@@ -71,6 +71,9 @@ func init() {
 			for strings.Contains(s, "{{") || strings.Contains(s, "{%") || strings.Contains(s, "{#") {
 				s = strings.Replace(strings.Replace(strings.Replace(s, "{{", "{ {", -1), "{%", "{ %", -1), "{#", "{ #", -1)
 			}
+			if rapidInt(t, 0, 3) == 0 {
+				s += "{" // a lone brace as the very last byte
+			}
 			return &identCase{Src: sb.BS(s)}
 		})
 	}
